@@ -38,10 +38,8 @@ impl std::fmt::Display for Val {
                     format!("{}", num)
                 }
             }
-            Return(..) | Next(..) => {
-                debug_assert!(false);
-                return write!(f, "");
-            }
+            // not a BASIC value; can be reached after the stack was disturbed (see Runtime::input)
+            Return(..) | Next(..) => return write!(f, ""),
         };
         if !s.starts_with('-') {
             s.insert(0, ' ');
